@@ -152,6 +152,12 @@ func (g *FnGen) declare(name, sort string) Term {
 	return Term{name, sort}
 }
 func (g *FnGen) define(name string, t Term) Term {
+	if strings.Contains(t.S, "(ite ") {
+		// keep conditionals out of terms that may end up inside quantifier patterns: name the value by a constant
+		g.emit(fmt.Sprintf("(declare-const %s %s)", name, t.Sort))
+		g.emit(fmt.Sprintf("(assert (= %s %s))", name, t.S))
+		return Term{name, t.Sort}
+	}
 	g.emit(fmt.Sprintf("(define-fun %s () %s %s)", name, t.Sort, t.S))
 	return Term{name, t.Sort}
 }
